@@ -141,7 +141,7 @@ func checkC03(p *Program, r *Result) {
 	r.rule("C03.b", "comparators are strict single-key comparisons with the direction of the read order", 2)
 	r.rule("C03.c", "chunk-order key == load-trigger key, same direction", 2)
 	r.rule("C03.d", "reverse order: new segment reversed before the stable sort", 1)
-	r.rule("C03.e", "load trigger re-evaluated after every chunk load", 2)
+	r.rule("C03.e", "load trigger re-evaluated after every chunk load", 1)
 
 	lc := p.lookupFunc(pkgMcap, "indexedMessageIterator.loadChunk")
 	ps := p.lookupFunc(pkgMcap, "indexedMessageIterator.parseSummarySection")
@@ -274,7 +274,13 @@ func checkC03(p *Program, r *Result) {
 		sortKey[order] = [2]string{f, op}
 	}
 	trigger := map[int][2]string{}
-	for _, in := range instrsOf(ni) {
+	var trigInstrs []ssa.Instruction
+	for _, m := range methodsOf(p, pkgMcap, "indexedMessageIterator") {
+		if m.Blocks != nil {
+			trigInstrs = append(trigInstrs, instrsOf(m)...)
+		}
+	}
+	for _, in := range trigInstrs {
 		b, ok := in.(*ssa.BinOp)
 		if !ok {
 			continue
@@ -283,7 +289,16 @@ func checkC03(p *Program, r *Result) {
 		dir := ""
 		lx, ly := stripConv(b.X), stripConv(b.Y)
 		isTs := func(v ssa.Value) bool {
-			return loadOfField(v, "messageIndexWithChunkSlot", "timestamp")
+			if loadOfField(v, "messageIndexWithChunkSlot", "timestamp") {
+				return true
+			}
+			// a helper predicate taking the head message's time as a parameter
+			if prm, ok := v.(*ssa.Parameter); ok {
+				if b, ok := prm.Type().Underlying().(*types.Basic); ok && b.Kind() == types.Uint64 {
+					return true
+				}
+			}
+			return false
 		}
 		cf := func(v ssa.Value) string {
 			if u, ok := v.(*ssa.UnOp); ok && u.Op == token.MUL {
@@ -350,7 +365,10 @@ func cmpShape(fn *ssa.Function, order int) string {
 			return "comparator returns " + describeVal(ret.Results[0]) + ", not cmp.Compare of the two timestamps; a difference of unsigned timestamps converted to int wraps for keys more than 2^63 apart"
 		}
 		f := c.Call.StaticCallee()
-		if f == nil || f.Pkg == nil || f.Pkg.Pkg.Path() != "cmp" {
+		if f != nil && f.Origin() != nil {
+			f = f.Origin()
+		}
+		if f == nil || f.Pkg == nil || f.Pkg.Pkg.Path() != "cmp" || f.Name() != "Compare" {
 			return "comparator does not use cmp.Compare"
 		}
 		a, b := c.Call.Args[0], c.Call.Args[1]
